@@ -181,6 +181,16 @@ class Each:
         return f"Each<{self.value!r}>"
 
 
+class ListIter:
+    """iter(<list of known elements>): the iterator's position is part of the state (next() advances it; exhausted -> StopIteration)"""
+
+    def __init__(self, items):
+        self.items, self.pos = list(items), 0
+
+    def __repr__(self):
+        return f"ListIter<{self.pos}/{len(self.items)}>"
+
+
 class ExtMod:
     """an external module / namespace (pd, np, math, nx, ...)"""
 
@@ -219,6 +229,8 @@ def to_term(v: Any) -> T.Term:
         return ("frame", v.ctx())
     if isinstance(v, Each):
         return ("each", to_term(v.value))
+    if isinstance(v, ListIter):
+        return ("iter", ("list", tuple(to_term(x) for x in v.items[v.pos:])))
     if isinstance(v, ReMatch):
         return ("rematch", v.m.group(0))
     if isinstance(v, GuardedSeq):
